@@ -190,7 +190,20 @@ def run(case):
             return violated("a ragged value with row lengths %s was accepted for a selection with row lengths %s (ra[%s] on lengths %s); target now %s" % (
                 vlens, sel_lens, short(idx), lens, short(after, 200)), tags, got=after, expected="refusal")
         if not lists_same(after, pyrows):
-            tags.append("refused-but-mutated")   # recorded, not judged
+            # "refused" means the assignment did not take place: a refusal that has already written some cells is a partial assignment
+            return violated("the mismatching ragged value (row lengths %s for a selection with row lengths %s) was refused with %s, but the target was changed first: %s, was %s" % (
+                vlens, sel_lens, type(out.exc).__name__, short(after, 200), short(pyrows, 200)), tags + ["refused-but-mutated"], got=after, expected=pyrows)
+        if len(ra) != len(lens) or np.asarray(ra.lengths).tolist() != list(lens):
+            return violated("a refused assignment changed the row structure: lengths %s -> %s" % (lens, np.asarray(ra.lengths).tolist()), tags + ["refused-but-mutated"])
+        # the array is still fully usable: the matching value is accepted right afterwards
+        good = RA(np.array([val(k) for k in range(sum(sel_lens))], dtype=dt), list(sel_lens))
+        again = attempt(lambda: ra.__setitem__(idx, good))
+        exp2 = [list(r) for r in pyrows]
+        for k, (i, j) in enumerate(flatcells):
+            exp2[i][j] = val(k)
+        if not again.ok or not lists_same(peek(ra), exp2):
+            return violated("after the refused assignment ra[%s] = <mismatching>, the matching assignment %s" % (short(idx), ("raised %r" % (again,)) if not again.ok else "gives %s, expected %s" % (short(peek(ra), 200), short(exp2, 200))),
+                            tags + ["unusable-after-refusal"])
         return held(tags, nontrivial)
     CTX.tick("c03:footprint", ncell > 0)
     if not out.ok:
